@@ -112,6 +112,19 @@ CLAIMED = {
         "pass (C14/C10/C16 sections); WrapMeta.__call__ is used through its contract; three inference defects are listed known findings.",
    technique="contract-stubbed proxy execution of get_annotations rules over annotated abstract parts; predicate closure lemmas; z3/cvc5",
    engine="ALG"),
+ "C12": dict(
+   category="proof",
+   text="Step conformance: initialize, take_cg_step (with update_alpha, update_gamma_beta, do_safe_div) and cond_fun are run as real code on a "
+        "generic column of a batched problem and must equal the textbook preconditioned-CG step with exactly the guards the statement allows; "
+        "run_batched_cg is verified through the invariant rule for its while loop (residual consistency r = b~ - A x, 0 <= k <= max_iters, exit "
+        "condition), with the normalisation by the column norm of b, the scaling of the initial guess, the rescaling of the result, the step cap and the "
+        "zero right-hand side as postconditions. Universal in n, the number of columns and the number of iterations.",
+   design_ref="4.12",
+   note="A-norm optimality over the Krylov space follows from the recurrences by the Hestenes-Stiefel theorem (ASSUMED, not in Mathlib); exact "
+        "arithmetic (no loss of conjugacy), no convergence-rate claim; batched arrays are modelled by their generic column (column-mixing operations "
+        "become opaque); info['iterations'] is covered by a bounded stand-in on the real while_loop_winfo and is a listed known finding.",
+   technique="contract-stubbed proxy execution over a column-family domain; loop invariant rule for while_loop_winfo; z3/cvc5",
+   engine="ALG"),
 }
 
 NOT_YET = "check not built yet in this session (framework under construction; see DESIGN.md section 10 for the order of work)"
